@@ -108,6 +108,9 @@ def min_cost_flow[Node](
     demand: int,
 ) -> Result:
     """Route demand units from source to sink at minimum total cost."""
+    if demand < 0:
+        # the loop below would not run and the empty flow would be reported as meeting the demand
+        raise ValueError(f"demand must be non-negative, got {demand}")
     # Residual graph with one forward and one backward edge per input arc, so that parallel
     # and anti-parallel arcs keep their own capacity and cost: edge e and e ^ 1 are partners.
     edge_to: list[Node] = []
